@@ -463,13 +463,22 @@ def r3_header_table(rep, src):
     else:
         rep.fail('C06.R3', f.site, 'data window', 'offset/end/cur are not initialised as tell(), offset + size, offset', where=f.where)
     # public properties expose the matching private attribute
+    # (the attribute read interpreted on a member whose private fields hold distinct marks: property(lambda ...), @property, a plain
+    # attribute -- whatever the class uses)
     cls = src.cls(M + ':ArMember')
+    from .. import heap as H_
     for pub, priv in (('name', '__name'), ('mtime', '__mtime'), ('owner', '__owner'), ('group', '__group'), ('size', '__size')):
-        node = mod.const_nodes.get('ArMember', {}).get(pub)
-        if node is not None and norm(node) == 'property(lambda self: self.%s)' % priv:
+        heap_ = H_.Heap(mod)
+        marks = {'_ArMember' + q: 'mark of ' + q for q in ('__name', '__mtime', '__owner', '__group', '__size', '__fmode', '__fname')}
+        m_ = heap_.alloc('ArMember', dict(marks))
+        try:
+            got_ = H_.Interp(heap_).ev(ast.parse('m.%s' % pub, mode='eval').body, {'m': m_}, None)
+        except (H_.Raised, AnalysisError) as x_:
+            got_ = 'raises %s' % x_
+        if got_ == 'mark of ' + priv:
             rep.ok('C06.R3', M + ':ArMember.' + pub, 'property', 'self.' + priv, nontrivial=False)
         else:
-            rep.fail('C06.R3', M + ':ArMember.' + pub, 'property', '%s does not expose self.%s' % (pub, priv))
+            rep.fail('C06.R3', M + ':ArMember.' + pub, 'property', '%s does not expose self.%s (reading it gives %r)' % (pub, priv, got_))
     _ = cls
     return dict(func=f, name_paths=name_paths, cut_of=cut_of)
 
